@@ -23,7 +23,7 @@ fn mkd<R: Rep>(abs: &Abs, ctx: &mut Ctx) -> Option<R> {
 
 // ------------------------------------------------------------------ C04
 
-fn bfs_case<R: Rep>(abs: &Abs, d: &R, srcs: &[usize], ctx: &mut Ctx) {
+pub fn bfs_case<R: Rep>(abs: &Abs, d: &R, srcs: &[usize], ctx: &mut Ctx) {
     let rn = R::NAME;
     let sset: BTreeSet<usize> = srcs.iter().copied().collect();
     let lv = abs.levels(&sset);
@@ -149,11 +149,12 @@ pub fn c04(tier: &str, seed: u64) -> Check {
         spaces.push(c04_space::<EL>(5, 1));
         spaces.push(c04_space::<WU>(5, 1));
     }
+    spaces.push(crate::props::fam::c04_c06_family("bfs", thorough));
     let report = super::report(
         "C04",
         tier,
         seed,
-        "bounded-exhaustive: every digraph on 0..n (n ≤ 4, and 5 in the thorough tier) × every subset of sources (empty included, both iteration orders) × five representations; Bfs / BfsDist item sequences and BfsDist::distances() compared with hop levels computed by frontier iteration over the reference arc set; order inside a level is free. Non-trivial: some source set gives ≥ 3 levels and leaves a vertex unreachable.",
+        "bounded-exhaustive: every digraph on 0..n (n ≤ 4, and 5 in the thorough tier) × every subset of sources (empty included, both iteration orders) × five representations; Bfs / BfsDist item sequences and BfsDist::distances() compared with hop levels computed by frontier iteration over the reference arc set; order inside a level is free. Beyond exhaustive reach: 17 structured shapes at orders 6, 8, 11 (6..11 thorough) in five representations with every single source and six source sets. Non-trivial: some source set gives ≥ 3 levels and leaves a vertex unreachable.",
         &["sources are distinct and in range, as the property states", "orders > 5 are not explored"],
         json!({"max_order": if thorough {5} else {4}, "reps": 5}),
     );
@@ -167,7 +168,7 @@ pub const KF_DFS: &str = "dfs-stale-pop-ends-iteration";
 /// Runs the three DFS iterators and DfsPred::predecessors() on one
 /// (digraph, ordered sources) and validates them. Returns false if the case
 /// matched the recorded finding.
-fn dfs_case<R: Rep>(abs: &Abs, d: &R, srcs: &[usize], ctx: &mut Ctx) {
+pub fn dfs_case<R: Rep>(abs: &Abs, d: &R, srcs: &[usize], ctx: &mut Ctx) {
     let rn = R::NAME;
     let sset: BTreeSet<usize> = srcs.iter().copied().collect();
     let det = |extra: serde_json::Value| json!({"rep": rn, "digraph": abs.arcs_json(), "sources_in_order": srcs, "observed": extra});
@@ -302,11 +303,12 @@ pub fn c06(tier: &str, seed: u64) -> Check {
         spaces.push(c06_space::<EL>(5, 1));
         spaces.push(c06_space::<WU>(5, 1));
     }
+    spaces.push(crate::props::fam::c04_c06_family("dfs", thorough));
     let report = super::report(
         "C06",
         tier,
         seed,
-        "bounded-exhaustive: every digraph on 0..n (n ≤ 4; order 5 with ≤ 1-2 sources) × every ordered arrangement of every source subset × five representations; the item streams of Dfs, DfsDist and DfsPred are fed to a depth-first-preorder validator that keeps the current search path and accepts (pred, v, depth) iff it is what C06 states (any neighbour/root order is accepted), then the yielded set must equal the reachable set and predecessors() must be the forest. A failing case is attributed to the recorded finding only if all three streams equal, item for item, the prediction 'correct lazy-stack preorder cut at the first pop of an already-visited vertex'. Non-trivial: some arrangement makes a lazy-stack DFS pop an already-visited vertex while unvisited entries remain.",
+        "bounded-exhaustive: every digraph on 0..n (n ≤ 4; order 5 with ≤ 1-2 sources) × every ordered arrangement of every source subset × five representations; the item streams of Dfs, DfsDist and DfsPred are fed to a depth-first-preorder validator that keeps the current search path and accepts (pred, v, depth) iff it is what C06 states (any neighbour/root order is accepted), then the yielded set must equal the reachable set and predecessors() must be the forest. Beyond exhaustive reach: 17 structured shapes at orders 6, 8, 11 (6..11 thorough). A failing case is attributed to the recorded finding only if all three streams equal, item for item, the prediction 'correct lazy-stack preorder cut at the first pop of an already-visited vertex'. Non-trivial: some arrangement makes a lazy-stack DFS pop an already-visited vertex while unvisited entries remain.",
         &["sources are distinct and in range", "the known-finding classifier assumes out_neighbors() is ascending (checked by C02)"],
         json!({"max_order_all_arrangements": 4, "order5_sources": if thorough {2} else {1}}),
     );
@@ -315,7 +317,7 @@ pub fn c06(tier: &str, seed: u64) -> Check {
 
 // ------------------------------------------------------------------ C09
 
-fn tarjan_check<R: Rep>(abs: &Abs, d: &R, ctx: &mut Ctx) {
+pub fn tarjan_check<R: Rep>(abs: &Abs, d: &R, ctx: &mut Ctx) {
     ctx.exec();
     let det = || json!({"rep": R::NAME, "digraph": abs.arcs_json()});
     match guarded(|| Tarjan::new(d).components().clone()) {
@@ -398,11 +400,12 @@ pub fn c09(tier: &str, seed: u64) -> Check {
     }
     spaces.push(c09_sparse(&[0, 2, 3, 7, 9], 4));
     spaces.push(c09_sparse(&[1, 4, 6], 3));
+    spaces.push(crate::props::fam::c09_family(thorough));
     let report = super::report(
         "C09",
         tier,
         seed,
-        "bounded-exhaustive: every digraph on 0..n (n ≤ 4; 5: AdjacencyList quick, all reps thorough) in five representations, and AdjacencyMap over every vertex set of the id pools {0,2,3,7,9} (≤ 4 vertices) and {1,4,6} with every arc set; Tarjan::components() as a set of sets must equal the classes of mutual reachability computed from per-vertex reachability sets, and be a partition. Non-trivial: ≥ 2 components, one of size ≥ 2.",
+        "bounded-exhaustive: every digraph on 0..n (n ≤ 4; 5: AdjacencyList quick, all reps thorough) in five representations, and AdjacencyMap over every vertex set of the id pools {0,2,3,7,9} (≤ 4 vertices) and {1,4,6} with every arc set; Tarjan::components() as a set of sets must equal the classes of mutual reachability computed from per-vertex reachability sets, and be a partition. Beyond exhaustive reach: 17 structured shapes at orders 6, 8, 11 (6..11 thorough), also relabelled onto non-contiguous ids. Non-trivial: ≥ 2 components, one of size ≥ 2.",
         &["orders > 5 not explored"],
         json!({"max_order": 5, "sparse_pools": [[0,2,3,7,9],[1,4,6]]}),
     );
@@ -478,7 +481,13 @@ fn c10_space(n: usize, max_arcs: usize) -> Space {
             return;
         }
         let abs = Abs::from_mask(n, idx);
-        let Some(d) = mkd::<AM>(&abs, ctx) else { return };
+        johnson_check(&abs, ctx);
+    })
+}
+
+pub fn johnson_check(abs: &Abs, ctx: &mut Ctx) {
+    {
+        let Some(d) = mkd::<AM>(abs, ctx) else { return };
         ctx.exec();
         let det = || json!({"digraph": abs.arcs_json()});
         match guarded(|| Johnson75::new(&d).circuits()) {
@@ -503,13 +512,13 @@ fn c10_space(n: usize, max_arcs: usize) -> Space {
                     let dup = g.windows(2).any(|w| w[0] == w[1]);
                     ctx.fail(format!("Johnson75::circuits() returned {} sequences, the digraph has {} elementary circuits; missing {missing:?}, extra {extra:?}, duplicates: {dup}", g.len(), want.len()), det());
                 }
-                if want.len() >= 2 && johnson_blocking_matters(&abs) {
+                if want.len() >= 2 && abs.n() <= 6 && johnson_blocking_matters(abs) {
                     ctx.nontrivial();
                 }
-                ctx.sample(|| json!({"digraph": abs.arcs_json(), "circuits": want}));
+                ctx.sample(|| json!({"digraph": abs.arcs_json(), "circuits": want.len()}));
             }
         }
-    })
+    }
 }
 
 pub fn c10(tier: &str, seed: u64) -> Check {
@@ -522,11 +531,12 @@ pub fn c10(tier: &str, seed: u64) -> Check {
     if thorough {
         spaces.push(c10_space(6, 9));
     }
+    spaces.push(crate::props::fam::c10_family(thorough));
     let report = super::report(
         "C10",
         tier,
         seed,
-        "bounded-exhaustive: every AdjacencyMap digraph on 0..n for n ≤ 4, and order 5 (≤ 12 arcs quick, all 2^20 thorough); Johnson75::circuits() must equal, as a multiset, the elementary circuits found by exhaustive simple-path extension over the reference arc set, each written from its smallest vertex; every returned sequence is checked to be a circuit. Non-trivial: ≥ 2 circuits and, in an instrumented textbook simulation over the reference digraph, a vertex blocked by a failed search is later unblocked through a B-list cascade.",
+        "bounded-exhaustive: every AdjacencyMap digraph on 0..n for n ≤ 4, and order 5 (≤ 12 arcs quick, all 2^20 thorough); Johnson75::circuits() must equal, as a multiset, the elementary circuits found by exhaustive simple-path extension over the reference arc set, each written from its smallest vertex; every returned sequence is checked to be a circuit. Beyond exhaustive reach: 17 structured shapes at orders 6, 7 (8 thorough; the complete digraph of order 7 has 2 365 circuits). Non-trivial: ≥ 2 circuits and, in an instrumented textbook simulation over the reference digraph, a vertex blocked by a failed search is later unblocked through a B-list cascade.",
         &["contiguous vertex ids only, as the property states", "order ≤ 5"],
         json!({"max_order": 5}),
     );
